@@ -25,6 +25,9 @@ TRUSTED = ['Lean 4.33 kernel', 'axioms: propext, Classical.choice, Quot.sound', 
            'the irrep-block encoding of the extension constraints, PureBosonicExt reduction (C17), optimiser convergence']
 
 DIMS = [(2, 2), (2, 3), (3, 3), (2, 4)]
+# residual allowed for quantities that come out of the LP solver (CLARABEL via cvxpy): observed |sum(lambda)-1| up to 3.5e-6 and
+# LP-point deviation up to 1.3e-6 over ~150 solves with the short iteration counts used here; a modelling error is O(1e-1)
+LP_TOL = 5e-5
 
 
 def fbits(x):
@@ -288,12 +291,12 @@ def tie_cha(ctx):
         mix = np.array([qi(x) for x in mo.split(';')]).reshape(N, N)
         point = numqi.entangle.hf_interpolate_dm(dm, beta=beta)
         ctx.count('cha-lp-point')
-        ok = (np.abs(point - mix).max() <= 1e-6 and lam.min() >= 0 and abs(lam.sum() - 1) <= 1e-6
+        ok = (np.abs(point - mix).max() <= LP_TOL and lam.min() >= 0 and abs(lam.sum() - 1) <= LP_TOL
               and np.abs(np.linalg.norm(ka, axis=1) - 1).max() <= 1e-9 and np.abs(np.linalg.norm(kb, axis=1) - 1).max() <= 1e-9)
         if ok:
             ctx.agree('cha-lp-point', ('cha-lp-point', trial))
         else:
-            ctx.disagree(f'C06 mixture {dA} {dB} (LP point of a real solution, seed trial {trial})', 'sum_i lambda_i P_i within 1e-6 of 1/N+beta*vhat, lambda>=0, sum=1, unit kets',
+            ctx.disagree(f'C06 mixture {dA} {dB} (LP point of a real solution, seed trial {trial})', f'sum_i lambda_i P_i within {LP_TOL} of 1/N+beta*vhat, lambda>=0, |sum-1|<={LP_TOL}, unit kets',
                          f'max dev {np.abs(point - mix).max():.3g}, min lambda {lam.min():.3g}, sum {lam.sum()!r}')
 
 
@@ -462,7 +465,7 @@ def probe_inner_models(ctx):
         outer_tests(mix, dA, dB, 0 if ctx.quick() else 2, True, 'CHABoundaryBagging', replay, boson_only=True)
         bppt = numqi.entangle.get_ppt_boundary(dm, (dA, dB))[1]
         bdm = numqi.entangle.get_density_matrix_boundary(dm)[1]
-        if not (beta <= bppt + 1e-6 and bppt <= bdm + 1e-12):
+        if not (beta <= bppt + LP_TOL and bppt <= bdm + 1e-12):
             ctx.fail('beta-order', f'beta_CHA={beta!r} beta_PPT={bppt!r} beta_DM={bdm!r} are not ordered', replay)
         else:
             ctx.probe_ok(('order-cha', trial))
@@ -528,7 +531,7 @@ def probe_ordering(ctx):
                 with contextlib.redirect_stdout(io.StringIO()), contextlib.redirect_stderr(io.StringIO()):
                     bcha = float(numqi.entangle.CHABoundaryBagging((dA, dB)).solve(dm if rep % 2 == 0 else numqi.entangle.hf_interpolate_dm(dm, beta=0.5 * bdm), maxiter=6, seed=rep))
                 for k in range(1, kmax + 1):
-                    if bcha > ext[k] + tol or bcha > extp[k] + tol:
+                    if bcha > ext[k] + LP_TOL or bcha > extp[k] + LP_TOL:
                         bad.append(f'beta_CHA={bcha!r} > beta_{k}ext={ext[k]!r} / +PPT {extp[k]!r}')
             except Exception as e:
                 ctx.count('cha-solver-raised-' + type(e).__name__)
